@@ -2416,6 +2416,26 @@ static int _GD_ParseDirective(DIRFILE *D, struct parser_state *restrict p,
   return matched;
 }
 
+/* Which lists an alias appears in depends on what it resolves to: when that
+ * changes, the cached lists of the alias's container (the parent's for a
+ * meta alias, the dirfile's otherwise) are stale */
+void _GD_InvalidateAliasLists(DIRFILE *restrict D, const gd_entry_t *restrict E)
+{
+  dtrace("%p, %p", D, E);
+
+  if (E->e->n_meta == -1) {
+    if (E->e->p.parent) {
+      E->e->p.parent->e->fl.entry_list_validity = 0;
+      E->e->p.parent->e->fl.value_list_validity = 0;
+    }
+  } else {
+    D->fl.entry_list_validity = 0;
+    D->fl.value_list_validity = 0;
+  }
+
+  dreturnvoid();
+}
+
 /* Resolve and record an alias, taking care of loops */
 static gd_entry_t *_GD_ResolveAlias(DIRFILE *restrict D, const gd_entry_t *base,
     gd_entry_t *E, unsigned int depth)
@@ -2444,6 +2464,8 @@ static gd_entry_t *_GD_ResolveAlias(DIRFILE *restrict D, const gd_entry_t *base,
   }
 
   E->e->entry[0] = T;
+  if (T)
+    _GD_InvalidateAliasLists(D, E);
 
   if (D->error) {
     dreturn("%p", NULL);
@@ -2464,8 +2486,11 @@ void _GD_UpdateAliases(DIRFILE *D, int reset)
 
   if (reset)
     for (u = 0; u < D->n_entries; ++u)
-      if (D->entry[u]->field_type == GD_ALIAS_ENTRY)
+      if (D->entry[u]->field_type == GD_ALIAS_ENTRY) {
+        if (D->entry[u]->e->entry[0])
+          _GD_InvalidateAliasLists(D, D->entry[u]);
         D->entry[u]->e->entry[0] = D->entry[u]->e->entry[1] = NULL;
+      }
 
   for (u = 0; u < D->n_entries; ++u)
     if (D->entry[u]->field_type == GD_ALIAS_ENTRY &&
